@@ -5,6 +5,10 @@ def rapid(name, test, quick, thorough):
     return {"name": name, "test": test, "kind": "rapid", "quick": quick, "thorough": thorough}
 
 
+def gofuzz(name, test, seconds):
+    return {"name": name, "test": test, "kind": "gofuzz", "quick": None, "thorough": {"seconds": seconds}}
+
+
 def enum(name, test, quick, thorough):
     return {"name": name, "test": test, "kind": "enum", "quick": quick, "thorough": thorough}
 
@@ -216,6 +220,34 @@ CHECKS = {
             enum("pool", "TestC16Pool", {"shards": 2}, {"shards": 2}),
             rapid("library", "TestC16Library", {"checks": 30000, "shards": 4}, {"checks": 300000, "shards": 16, "timeout": 6000}),
             rapid("cli", "TestC16CLI", {"checks": 40, "shards": 6, "shrinktime": "10s"}, {"checks": 800, "shards": 16, "timeout": 6000}),
+        ],
+    },
+    "C13": {
+        "cli": True,
+        "technique": "rapid structured generation of damaged diffs / JSON Patch / merge patch documents against real target paths, mutation-based byte-level generation, hostile constant enumeration, native coverage-guided go fuzzing (thorough), oracle = recover() around every public entry point and process-level crash detection",
+        "level_text": "Structurally valid diffs whose paths are taken from the target and then damaged (negative, fractional, huge, off-by-one indices, wrong container kinds, set paths on non-arrays, "
+                      "multi-value hunks on objects, over-long context), JSON Patch documents with hostile pointers and op shapes, arbitrary merge patches and byte-level mutations of valid texts "
+                      "are read and, when read, applied and rendered in every format with recover() around each call; patched documents must survive Json()/Yaml(). Both binaries are run on such "
+                      "files in every input role: status must be 0/1/2, status 2 must come with an empty stdout and a message, and stderr must never show a Go stack trace. "
+                      "The thorough tier adds coverage-guided native fuzzing of five targets with the same oracle inside. Exploration; absence of crashes is not established.",
+        "level_note": "Native fuzzing cannot be pinned to VERIF_SEED; a saved crasher is the reproducible unit. The -v2=false mode (v1 library) is outside this property. "
+                      "A status-2 message that quotes multi-line input is counted (multi-line-message), not reported.",
+        "rule": "structure leg: 1-2 hunks on real paths of a generated target with one of 14 damages, as DiffElements or as native text; patch leg: 1-5 ops incl. unsupported ones, 35% hostile pointers; merge leg: related and unrelated patch documents; "
+                "bytes leg: 1-3 mutations (byte/line edits, hostile numbers, spliced hostile texts) of valid diff / patch / merge / JSON / YAML texts or of ~130 hostile constants; constants leg: every constant x 5 readers x 7 targets; "
+                "cli leg: diff / patch / translate invocations with such files as FILE1, FILE2 or stdin. Non-trivial: the input was accepted by the reader and reached Patch or the renderers (cli: the process reported an error); distinct by the full case.",
+        "assumptions": ["a Go panic in the CLI is recognised by 'panic:', 'goroutine ' or 'runtime error' on stderr (its exit status is also 2)"],
+        "legs": [
+            enum("constants", "TestC13Constants", {"shards": 2}, {"shards": 2}),
+            rapid("structure", "TestC13Structure", {"checks": 25000, "shards": 4}, {"checks": 300000, "shards": 16, "timeout": 6000}),
+            rapid("patch", "TestC13Patch", {"checks": 15000, "shards": 2}, {"checks": 200000, "shards": 16, "timeout": 6000}),
+            rapid("merge", "TestC13Merge", {"checks": 10000, "shards": 2}, {"checks": 100000, "shards": 16, "timeout": 6000}),
+            rapid("bytes", "TestC13Bytes", {"checks": 25000, "shards": 4}, {"checks": 400000, "shards": 16, "timeout": 6000}),
+            rapid("cli", "TestC13CLI", {"checks": 150, "shards": 4, "shrinktime": "10s"}, {"checks": 3000, "shards": 16, "timeout": 6000}),
+            gofuzz("fuzz-diff", "FuzzC13Diff", 90),
+            gofuzz("fuzz-patch", "FuzzC13Patch", 60),
+            gofuzz("fuzz-merge", "FuzzC13Merge", 30),
+            gofuzz("fuzz-json", "FuzzC13Json", 30),
+            gofuzz("fuzz-yaml", "FuzzC13Yaml", 60),
         ],
     },
     "C06": {
